@@ -92,6 +92,9 @@ func opBatch(c Obj) J {
 		}
 		return nil
 	}
+	if kind == "precancel" {
+		cancel()
+	}
 	err := batch.Authorize(ctx, set, tmpl.Store, batch.Request{Principal: tmpl.P, Action: tmpl.A, Resource: tmpl.R, Context: tmpl.C, Variables: vars}, cb)
 	ret := "nil"
 	switch {
@@ -135,6 +138,11 @@ func cmpBatch(c Obj, obs, exp J) []int {
 		return nil
 	case "nowork":
 		if len(calls) != 0 || ret != "nil" {
+			return []int{0}
+		}
+		return nil
+	case "precancel":
+		if len(calls) != 0 || ret != "ctx" {
 			return []int{0}
 		}
 		return nil
@@ -320,6 +328,8 @@ func driveBatch(seed int64, n int, params map[string]string) []Obj {
 		fault := Obj{"kind": "none", "at": 1}
 		if total > 0 && g.r.Intn(3) == 0 {
 			fault = Obj{"kind": pick(g, []string{"fail", "cancel"}), "at": 1 + g.r.Intn(total+1)}
+		} else if g.r.Intn(12) == 0 { // the context is cancelled before the call (also with an empty value list)
+			fault = Obj{"kind": "precancel", "at": 1}
 		}
 		out = append(out, Obj{"op": "batch", "policies": pols, "template": env, "vars": vars, "fault": fault})
 	}
